@@ -588,13 +588,15 @@ func init() {
 				&Instance{Pkg: fp, Func: "VH_C08_crash", Args: []int64{1}, Unwind: 64},
 				&Instance{Pkg: fp, Func: "VH_C08_readacross", Args: []int64{0, 0}, Unwind: 64},
 				&Instance{Pkg: fp, Func: "VH_C08_readacross", Args: []int64{1, 0}, Unwind: 64},
+				&Instance{Pkg: fp, Func: "VH_C08_overlap", Args: []int64{0}, Unwind: 64},
+				&Instance{Pkg: fp, Func: "VH_C08_overlap", Args: []int64{1}, Unwind: 64},
 				&Instance{Pkg: fp, Func: "VH_C08_vacuity", Expect: "violated"},
 			)
 			return r
 		},
-		Covers: map[string][]string{"VH_C08_transfer": {"end", "raced"}, "VH_C08_cuts": {"end"}, "VH_C08_stop": {"end", "recover-stopped"}, "VH_C08_crash": {"end", "crash-during", "crash-after"}, "VH_C08_readacross": {"end"}},
+		Covers: map[string][]string{"VH_C08_transfer": {"end", "raced"}, "VH_C08_cuts": {"end"}, "VH_C08_stop": {"end", "recover-stopped"}, "VH_C08_crash": {"end", "crash-during", "crash-after"}, "VH_C08_readacross": {"end"}, "VH_C08_overlap": {"end"}},
 		Bounds: map[string]string{
-			"quick":    "real PrepareSnapshot/SaveSnapshot/RecoverFromSnapshot, both recoverers' prepare/save/recover, writeLenDelimited, header dispatch, Open/Close: (transfer) all four (saver format, receiver configured format) pairs; saver table with 0..1 arbitrary pairs (1-byte key/value) and arbitrary 64-bit applied and leader index; optionally a put, and a range delete, applied between prepare and save; receiver with 0..1 other pairs; install, then restart of the receiver; (cuts, engine only) sstable stream of 0..2 pairs cut into tables after any Set; (stop) stop signal at any of the first 6 writes of save / first 8 reads of recover, both formats, stopped recover leaves the previous state usable and a later recover installs; (crash) receiver on a strict file system with a durable previous state, crash at any of the first 40 file-system operations issued by regatta during reopen+install or after it, both formats, reopen shows the previous or the snapshot state complete with its indices and a completed install survives; (read across) a streaming range read obtained before an install and first pulled after it, both formats",
+			"quick":    "real PrepareSnapshot/SaveSnapshot/RecoverFromSnapshot, both recoverers' prepare/save/recover, writeLenDelimited, header dispatch, Open/Close: (transfer) all four (saver format, receiver configured format) pairs; saver table with 0..1 arbitrary pairs (1-byte key/value) and arbitrary 64-bit applied and leader index; optionally a put, and a range delete, applied between prepare and save; receiver with 0..1 other pairs; install, then restart of the receiver; (cuts, engine only) sstable stream of 0..2 pairs cut into tables after any Set; (stop) stop signal at any of the first 6 writes of save / first 8 reads of recover, both formats, stopped recover leaves the previous state usable and a later recover installs; (crash) receiver on a strict file system with a durable previous state, crash at any of the first 40 file-system operations issued by regatta during reopen+install or after it, both formats, reopen shows the previous or the snapshot state complete with its indices and a completed install survives; (read across) a streaming range read obtained before an install and first pulled after it, both formats; (overlap) two prepared snapshots alive at once with a write between the prepares, both formats: each saved stream installs the state of its own prepare",
 			"thorough": "same with 0..2 pairs in the transferred table",
 		},
 		Outside: "fidelity of Pebble's SST blocks / manifest / checkpoint hard-links and of archive/tar's record format (the payload containers are content-preserving models: M1 extension in model_sst.go); compression applied by dragonboat; tables above the sstable size threshold natively (the cut is explored in the engine only); a read already pulling when the install happens (iterator open on the DB being closed: Pebble-internal behaviour); unary reads racing with the swap between Load() and NewIter (same root cause as the listed finding); crash on the saver side; arbitrary/corrupt header bytes (getRecoverer panics on an unknown type: dragonboat checksums snapshot files, so such a header is not an input)",
